@@ -20,10 +20,10 @@ use std::collections::BTreeSet;
 
 use super::common::{
     Flavor, VResult, assignments, braced, collect_bound_object_handles,
-    collect_mutation_value_handles, collect_mutation_value_paths, collect_where_variables,
-    element_ref, fail, handle, mutation_value, object_matcher, opt_after, parenthesized,
-    proposition_matcher, quoted_string, scalar, spanned, symbol_ref, unset_field_set, where_block,
-    word, words, ws,
+    collect_mutation_value_handles, collect_mutation_value_paths, collect_term_variables,
+    collect_where_variables, element_ref, fail, handle, mutation_value, object_matcher, opt_after,
+    parenthesized, proposition_matcher, quoted_string, scalar, spanned, symbol_ref,
+    unset_field_set, where_block, word, words, ws,
 };
 use crate::ast::{
     Assignments, BoundValue, ConceptCreate, ConceptUpsert, CorrectEvidence, DotPathVar, ElementRef,
@@ -1462,7 +1462,12 @@ fn collect_clause_handles(clause: &MutationClause, out: &mut BTreeSet<String>) {
             collect_facets_handles(&c.set_facets, out);
             collect_edges_handles(c.set_structural.as_ref(), out);
         }
-        MutationClause::EnsureProposition(_) => {}
+        // A `?variable` endpoint names an element this plan creates, and an
+        // engine resolves it exactly like any other handle.
+        MutationClause::EnsureProposition(c) => {
+            collect_term_variables(&c.subject, out);
+            collect_term_variables(&c.object, out);
+        }
         MutationClause::Update(c) => {
             element(&c.target);
             for action in &c.actions {
@@ -1830,6 +1835,20 @@ mod tests {
         .1;
         let err = validate_plan(&statement).expect_err("unbound handle");
         assert_eq!(err.code, crate::error::KipErrorCode::ReferenceError);
+    }
+
+    #[test]
+    fn an_unbound_tuple_endpoint_is_a_reference_error() {
+        let statement = parse_kml_statement(r#"ENSURE PROPOSITION (?nowhere, "prefers", :x)"#)
+            .expect("parses")
+            .1;
+        let err = validate_plan(&statement).expect_err("unbound endpoint handle");
+        assert_eq!(err.code, crate::error::KipErrorCode::ReferenceError);
+
+        kml(r#"MUTATE {
+                CREATE CONCEPT ?alice { TYPE "Person" NAME "Alice" }
+                ENSURE PROPOSITION ?p (?alice, "prefers", :dark_mode)
+            }"#);
     }
 
     #[test]
